@@ -7,12 +7,18 @@
             constructors load from the directory as it is when the process is killed at the entry of this call
             (crash), and - for a write - when it is killed after k bytes of it (cuts: k in {0, 1, half, len-1})
      end    the store's method returned (ok = no error = the change is acknowledged) + the recovery after it
+     hist   (on sys / end lines) continuation after an EARLIER crash: the process was killed at a crash point of the
+            previous update of this store (origin j, ci, cut; rec = what the constructors recovered there), the
+            recorded calls that follow were re-executed on that crashed directory, and this is what the real
+            constructors load from it at this boundary of the next update
    Every call is applied to the model's directory by Persist!SysApply (the action MC_Persist uses).  The recovery
    observations are judged with Persist!SafeRecovery against the model's old / new value (new = Effect(update, old)):
      VIOL C20   a store fails to load, the in-flight store holds neither the complete old nor the complete new value,
                 another store changed, or an acknowledged change is not there after the acknowledgement
-     DRIFT      an update the model does not enable, a call the model's directory cannot execute, or an update whose
-                call sequence is crash-safe here but is not the protocol shape proven in MC_Persist
+                - also for the continued histories (crash, restart, next update of the store, second crash or completion)
+     DRIFT      an update the model does not enable or a call the model's directory cannot execute
+     SHAPE      (informational) an update that survived every crash point and continuation here although its call sequence
+                is not the protocol shape proven in MC_Persist
    Acceptance: every line consumed. *)
 EXTENDS Persist, Json
 
@@ -77,6 +83,33 @@ Squash(sq) == IF Len(sq) <= 1 THEN sq
               ELSE <<sq[1]>> \o Squash(Tail(sq))
 Shape(sq) == LET q == Squash(SelectSeq(sq, Keep)) IN [i \in DOMAIN q |-> NormStep(q[i])]
 
+(* ---- continuation after an earlier crash ------------------------------------------------------------------------ *)
+(* History: killed at an earlier crash point where the constructors recovered h.rec for this store; then this update.
+   Single-file stores are rewritten as a whole, so the complete new value is this update's recorded new value;
+   account files are per login, so it is Effect(update, recovered).  A history in which the handlers would not issue
+   this update on the recovered accounts is not judged. *)
+HistRec(h) == ValIn(inflight.st, h.rec)
+HistLive(h) == inflight.st # "accts" \/ Pre(inflight.u, HistRec(h))
+HistNew(h) == IF inflight.st = "accts" THEN Effect(inflight.u, HistRec(h)) ELSE inflight.new
+HistBad(h, isAcked) ==
+  LET r == ObsRes(h.crash)
+      st == inflight.st
+  IN \/ Fails(r) # {}
+     \/ r[st].val # HistRec(h) /\ r[st].val # HistNew(h)
+     \/ \E o \in Stores \ {st} : r[o].val # val[o]
+     \/ isAcked /\ r[st].val # HistNew(h)
+HistDetail(h, cls) ==
+  LET r == ObsRes(h.crash) IN
+  [class |-> cls, store |-> inflight.st, kind |-> inflight.u.kind, upd |-> inflight.u, cut |-> h.cut,
+   origin |-> [update |-> h.j, call |-> h.ci, cut |-> h.cut], fails |-> Fails(r),
+   errs |-> [st \in Fails(r) |-> h.crash[st].err], state |-> h.crash.key,
+   recovered_at_first_crash |-> ToJson(h.rec),
+   recovered |-> IF inflight.st \in Fails(r) THEN "load error" ELSE ToJson(h.crash[inflight.st].val),
+   new |-> ToJson(HistNew(h))]
+BadHists(e, isAcked) == {i \in DOMAIN e.hist : HistLive(e.hist[i]) /\ HistBad(e.hist[i], isAcked)}
+ReportHists(e, cls, B) ==
+  (B # {} /\ <<e.run, e.u, cls>> \notin seen) => Report("VIOL", e, HistDetail(e.hist[CHOOSE i \in B : \A k \in B : i <= k], cls))
+
 (* ---- events --------------------------------------------------------------------------------------------------- *)
 Init == /\ l = 1 /\ bad = FALSE /\ steps = << >> /\ seen = {}
         /\ dir = << >> /\ ino = << >> /\ fds = << >>
@@ -125,8 +158,10 @@ SysEv ==
   /\ IF inflight.kind # "upd"
        THEN /\ UNCHANGED <<dir, ino, fds, phase, bad, steps, seen>>      \* its begin was already reported as drift
        ELSE /\ ReportPoints(e, badPts)
+            /\ ReportHists(e, "continued-after-crash/" \o BoundaryClass(s), BadHists(e, FALSE))
             /\ seen' = seen \cup {<<e.run, e.u, p.class>> : p \in badPts}
-            /\ bad' = (bad \/ badPts # {})
+                            \cup (IF BadHists(e, FALSE) # {} THEN {<<e.run, e.u, "continued-after-crash/" \o BoundaryClass(s)>>} ELSE {})
+            /\ bad' = (bad \/ badPts # {} \/ BadHists(e, FALSE) # {})
             /\ steps' = Append(steps, s)
             /\ IF SysGuard(s)
                  THEN SysApply(s)
@@ -139,6 +174,7 @@ EndEv ==
       st == inflight.st
       o == e.crash
       cls == "after-" \o PrevTag \o "-before-end"
+      hcls == "continued-after-crash/completed"
       pt == [class |-> cls, k |-> -1, o |-> o]
       unsafe == ~SafeRecovery(ObsRes(o))
       newThere == o[st].ok /\ ValIn(st, o[st].val) = inflight.new
@@ -150,12 +186,14 @@ EndEv ==
   /\ IF inflight.kind # "upd"
        THEN UNCHANGED <<val, acked, seen>>
        ELSE /\ (unsafe => ReportPoints(e, {pt}))
+            /\ ReportHists(e, hcls, BadHists(e, e.ok))
             /\ (lost /\ <<e.run, e.u, "acknowledged-change-not-durable">> \notin seen =>
                   Report("VIOL", e, PointDetail([class |-> "acknowledged-change-not-durable", k |-> -1, o |-> o])))
             /\ seen' = seen \cup (IF unsafe THEN {<<e.run, e.u, cls>>} ELSE {})
                             \cup (IF lost THEN {<<e.run, e.u, "acknowledged-change-not-durable">>} ELSE {})
-            /\ ((e.ok /\ ~bad /\ ~unsafe /\ ~lost /\ got # want) =>
-                  Report("DRIFT", e, [what |-> "crash-safe here, but not the protocol shape proven in MC_Persist",
+                            \cup (IF BadHists(e, e.ok) # {} THEN {<<e.run, e.u, hcls>>} ELSE {})
+            /\ ((e.ok /\ ~bad /\ ~unsafe /\ ~lost /\ BadHists(e, e.ok) = {} /\ got # want) =>
+                  Report("SHAPE", e, [what |-> "survives every crash point and continuation here, but is not the protocol shape proven in MC_Persist",
                                       kind |-> inflight.u.kind, got |-> got, want |-> want]))
             /\ val' = [val EXCEPT ![st] = IF o[st].ok THEN ValIn(st, o[st].val) ELSE inflight.old]
             /\ acked' = [acked EXCEPT ![st] = IF e.ok THEN inflight.new ELSE @]
